@@ -270,22 +270,13 @@ def check(world, tier):
     # ---------------------------------------------------------------- c offsets
     c = rep.clause("C11.c", "the decoder reads the offsets the serializer writes")
     ed = world.run("fn:" + PACKET + "::deserialize")
-    idx = [e for e in ed.events if base_name(e).endswith("std::ops::Index<I> for [T]>::index")]
     starts = {}
-    for e in idx:
-        ob = None
-        for o in ed.obligations.values():
-            if o.ctx == e.ctx and o.bb == e.bb:
-                ob = o
-        rk_sub = e.args[1] if len(e.args) > 1 else None
-        st_ = None
-        if isinstance(rk_sub, tuple) and rk_sub[0] == "agg":
-            st_ = rk_sub[1].get((0,))
-        fn = short(ed.frame_bodies[e.ctx].path)
-        caller = short(frame_fn(e.ctx[:-1])) if len(e.ctx) > 1 else ""
+    for (node, fid_, rk, st_, en_) in ed.index_log:
+        fn = short(ed.frame_bodies[fid_].path)
+        caller = short(frame_fn(fid_[:-1])) if len(fid_) > 1 else ""
         key = fn if not fn.endswith("Convert::to_string") else "to_string<-" + caller
-        if st_ is not None and st_[0] == "i":
-            starts.setdefault(key, set()).add(lin.show(st_[1]) if st_[1][1] else st_[1][0])
+        starts.setdefault(key, set()).add(lin.show(st_) if st_[1] else st_[0])
+    c.need(len(ed.index_log), 5, "range reads of the datagram in the decoder")
     def has(k, v):
         return any(k_.endswith(k) and v in vs for k_, vs in starts.items())
     # role-located: functions called from deserialize per opcode are found by what they build; offsets checked as constants
@@ -335,20 +326,35 @@ def check(world, tier):
     # the shortest encodings the serializer produces are accepted: DATA with an empty payload and ACK are 4 bytes long
     buf_len = ed.named(("len", ("P", ("L", ed.entry_frame, 1), ()), ()), None)
     Lb = lin.var(buf_len)
-    for vn, n in (("Data", 4), ("Ack", 4)):
+    why_min = {"Data": "DATA with an empty payload is the final block of a file whose size is a multiple of blksize", "Ack": "ACK",
+               "Oack": "an OACK whose option list is empty - what the decoder itself returns for an OACK carrying only unknown options - is encoded as the bare opcode",
+               "Error": "an ERROR with an empty message"}
+    why_min["Error4"] = "an ERROR consisting of opcode and code only (message missing or unterminated) is still the peer's ERROR: the decoder reports it with a placeholder message"
+    for vn, n in (("Data", 4), ("Ack", 4), ("Oack", 2), ("Error", 5), ("Error", 4)):
         oks = [s_ for s_ in ed.finals if ret_discr(ed, s_) == 0 and variant_name(prog, PACKET, ret_discr(ed, s_, ((("v", 0)), 0))) == vn]
         feas = [s_ for s_ in oks if not s_.ctx.infeasible_with([lin.le(Lb, lin.const(n)), lin.le(lin.const(n), Lb)])]
-        c.ob(bool(feas), "minimal-%s-rejected" % vn.lower(),
+        c.ob(bool(feas), "minimal-%s-rejected" % (vn.lower() if (vn, n) != ("Error", 4) else "error-without-message"),
              "the decoder rejects a %d-byte %s datagram although the serializer produces it (%s): decode(encode(p)) != p for that packet"
-             % (n, vn.upper(), "DATA with an empty payload is the final block of a file whose size is a multiple of blksize" if vn == "Data" else "ACK"),
+             % (n, vn.upper(), why_min["Error4" if (vn, n) == ("Error", 4) else vn]),
              sample={"kind": vn, "accepted with len(buf) ==": n})
+    # every 16-bit block number is accepted (0 is a legitimate number: the 65536th block of a long transfer)
+    for vn in ("Data", "Ack"):
+        vi_ = [i for i, x in enumerate(prog.adts[PACKET]["variants"]) if x["name"] == vn][0]
+        oks = [s_ for s_ in ed.finals if ret_discr(ed, s_) == 0 and variant_name(prog, PACKET, ret_discr(ed, s_, ((("v", 0)), 0))) == vn]
+        for val in (0, 1, 255, 256, 65535):
+            feas = False
+            for s_ in oks:
+                nv = ed.read(s_, ("L", ed.entry_frame, 0), (("v", 0), 0, ("v", vi_), 0))
+                if nv[0] == "i" and not s_.ctx.infeasible_with([lin.le(nv[1], lin.const(val)), lin.le(lin.const(val), nv[1])]):
+                    feas = True
+            c.ob(feas, "block-number-%d-rejected-%s" % (val, vn.lower()),
+                 "the decoder rejects %s with block number %d: a transfer that reaches that number (wrap-around after 65535) stalls" % (vn.upper(), val),
+                 sample={"kind": vn, "block number": val, "accepted": feas})
     # which parser reads what: Data/Ack/Error number at 2; Data payload and Error message at 4
     pk_events = {}
     for e in ed.events:
         if e.inlined and e.ctx == ed.entry_frame:
             pk_events[e.callee] = e
-    for e in idx:
-        fn = ed.frame_bodies[e.ctx].path
     # ---------------------------------------------------------------- d option names
     d = rep.clause("C11.d", "OptionType::from_str and as_str are mutually inverse on the RFC names")
     as_str = OPTIONTYPE + "::as_str"
